@@ -220,6 +220,37 @@ Section Restore.
     - exists s3. split; [exact Hr3|]. split; [exact Hv3|]. rewrite Hd3. apply HV2.
   Qed.
 
+  (* the same with an observe file that may be absent: the memory state that comes out *)
+  Theorem ps_startup_mem : forall m0 D O C fs,
+    psc_dyn c = true -> psc_obs c = true -> psc_cnt c = true -> psc_unknown c = true ->
+    Forall ps_dyn_wf D -> Forall (ps_obs_wf (psc_la c) (psc_lt c)) O -> Forall ps_cnt_wf C ->
+    (length D < psc_fuel c)%nat -> (length O < psc_fuel c)%nat ->
+    (length C + length O < psc_fuel c)%nat ->
+    ps_holds ps_dyn_file (ps_view (ps_boot fs) PS_DYN) D ->
+    ps_holds ps_obs_file (ps_view (ps_boot fs) PS_OBS) O ->
+    ps_holds ps_cnt_file (ps_view (ps_boot fs) PS_CNT) C ->
+    ps_mem_ok (ps_set_counts (ps_rounded (psc_freq c) C) (ps_dyn_fold (ps_dyn_step app) D m0)) ->
+    fst (ps_run pol (ps_startup app req alloc c m0) (ps_boot fs)) = Some (ps_restored_mem m0 D O C).
+  Proof.
+    intros m0 D O C fs Hd Ho Hc Hu HD HO HC HlD HlO HlCO HvD HvO HvC Hok.
+    destruct HvO as [HvO|[HvO ->]].
+    - destruct (ps_startup_restores m0 D O C fs) as (s' & Hr & _); try assumption.
+      rewrite Hr. reflexivity.
+    - unfold ps_startup. rewrite Hd, Hu, Hc, Ho. cbn [andb].
+      rewrite ps_run_bind.
+      destruct (ps_dyn_load_correct pol ps_mem (ps_dyn_step app) (psc_fuel c) D m0 (ps_boot fs) HD HlD HvD)
+        as (s1 & Hr1 & Hf1 & Hn1 & Hg1).
+      rewrite Hr1. rewrite ps_run_bind.
+      assert (HV1 : forall i, ps_view s1 i = ps_view (ps_boot fs) i) by (apply ps_view_files; exact Hf1).
+      assert (HvC1 : ps_holds ps_cnt_file (ps_view s1 PS_CNT) C) by (rewrite HV1; exact HvC).
+      destruct (ps_cnt_load_correct pol (psc_fuel c) (psc_freq c) C s1 HC ltac:(lia) HvC1)
+        as (s2 & Hr2 & Hf2 & Hn2 & Hg2).
+      rewrite Hr2.
+      assert (HV2 : ps_view s2 PS_OBS = None).
+      { rewrite <- HvO, <- HV1. apply ps_view_files. exact Hf2. }
+      rewrite (ps_obs_load_missing _ _ _ _ _ HV2). reflexivity.
+  Qed.
+
   (* every dynamic resource in the file exists again (the application re-creates the resource
      a stored request names) *)
   Lemma ps_find_app : forall name m x,
